@@ -838,7 +838,7 @@ CHECK_DEADLOCK FALSE
 
 def model_check(quick: bool) -> T.List[T.Tuple[str, T.Any]]:
     """TLC on the specifications alone (runs in a thread next to the drivers)."""
-    runs = [('31+22', '{31, 22}', '{"ok", "fail", "upass", "timeout", "skip"}', 'TRUE')]
+    runs = [('31+22/4kinds/flaky', '{31, 22}', '{"ok", "fail", "upass", "timeout"}', 'TRUE')]
     if not quick:
         runs = [
             ('31+22/7kinds/flaky', '{31, 22}', '{"ok", "fail", "upass", "xfail", "timeout", "skip", "error"}', 'TRUE'),
@@ -903,7 +903,7 @@ def main(chk: Check) -> None:
     n_proj = 12 if quick else 64
     runs_per = 6 if quick else 8
     n_sel = 3 if quick else 5
-    n_virtual = 600 if quick else 8000
+    n_virtual = 500 if quick else 8000
     n_sim_inst = 6 if quick else 40
     sim_per = 2 if quick else 3
 
